@@ -1,5 +1,6 @@
 import Poly.Proofs.MerkleServe
 import Poly.Proofs.MerkleVerify
+import Poly.Proofs.MerkleLedger
 /-!
 # C08 — Proofs served to relayers verify against committed roots
 
@@ -9,7 +10,8 @@ The header commits `HashFullTreeWithLeafHash(CrossHashes)` (RFC 6962 split recur
 every list and that every served path verifies with `merkleProve` against the committed root.
 -/
 namespace Poly.Props.C08
-open Poly.Spec.RFC6962 Poly.Model.Merkle Poly.Proofs.MerkleSpec Poly.Proofs.MerkleServe
+open Poly.Spec.RFC6962 Poly.Model.Merkle Poly.Model.MerkleLedger Poly.Proofs.MerkleSpec Poly.Proofs.MerkleServe
+  Poly.Proofs.MerkleLedger
 
 variable (H : List UInt8 → List UInt8)
 
@@ -62,6 +64,72 @@ theorem served_proof_yields_committed_record (hlen : HashLen H) (recs : List (Li
     have := DTree.descend_leaf_mem _ ds value h
     rwa [rfcTree_leaves recs hne] at this
   · exact Or.inr h
+
+
+/-! ### Ledger glue (model `Poly.Model.MerkleLedger`): whole chains of committed blocks
+
+A chain is a genesis hash `g` and blocks `(hash, records committed by the successful transactions)`.
+The accumulator's leaf `i` is the previous-block hash of block `i` (zero hash for genesis), header `r`
+commits `blockRootAt … r` (root over leaves `0..r`), and `GetMerkleProof(h, r)` is
+`MerkleInclusionLeafPath(hash_h, h + 1, r + 1)` — the `+1` shifts are part of the model. -/
+
+/-- Building any chain never panics, and the header of height `r` commits `blockRootAt … r`, also seen
+from every later extension of the chain. -/
+theorem block_root_committed (g : Hash) (blocks : List (Hash × List (List UInt8 × List UInt8))) (r : Nat)
+    (hr : r ≤ blocks.length) :
+    ∃ lr, chain H g (blocks.take r) = .ok lr ∧
+      blockRoot H lr = .ok (blockRootAt H (g :: blocks.map (·.1)) r) :=
+  blockRoot_committed H g blocks r hr
+
+/-- For every chain of committed blocks and any heights `h < r`: the block-inclusion proof served for
+block `h` verifies (`MerkleProve`) against the block root in header `r` and yields block `h`'s hash. -/
+theorem served_block_proof_ok (hlen : HashLen H) (g : Hash) (blocks : List (Hash × List (List UInt8 × List UInt8)))
+    (h r : Nat) (hhr : h < r) (hr : r ≤ blocks.length)
+    (h32 : ∀ y ∈ g :: blocks.map (·.1), y.length = 32) :
+    ∃ l bh p, chain H g blocks = .ok l ∧ (g :: blocks.map (·.1))[h]? = some bh ∧
+      getMerkleProof H l h r = .ok p ∧
+      merkleProve H p (blockRootAt H (g :: blocks.map (·.1)) r) = .ok bh := by
+  obtain ⟨l, h1, h2, h3⟩ := linv_chain H g blocks
+  have hlt : h < (g :: blocks.map (·.1)).length := by simp; omega
+  have hbh : (g :: blocks.map (·.1))[h]? = some ((g :: blocks.map (·.1))[h]) := List.getElem?_eq_getElem hlt
+  obtain ⟨p, hp1, hp2⟩ := served_block_proof H hlen l h2 h r _ hhr (by rw [h3]; simp; omega) (by rw [h3]; exact hbh)
+    (h32 _ (List.getElem_mem _))
+  exact ⟨l, _, p, h1, hbh, hp1, by rw [h3] at hp2; exact hp2⟩
+
+/-- For every committed block: each cross-chain record the block produced (stored under a key the block
+wrote once) has a proof, as served by `GetCrossStatesProof(height, key)`, that verifies against the block's
+cross-state root and yields exactly the stored record. -/
+theorem served_cross_proof_ledger (hlen : HashLen H) (g : Hash) (blocks : List (Hash × List (List UInt8 × List UInt8)))
+    (bh : Hash) (recs : List (List UInt8 × List UInt8)) (key value : List UInt8)
+    (hmem : (key, value) ∈ recs) (huniq : ∀ kv ∈ recs, kv.1 = key → kv.2 = value)
+    (hsize : recs.length * 33 + value.length + 8 ≤ MAX_SIZE) :
+    ∃ l p root, chain H g (blocks ++ [(bh, recs)]) = .ok l ∧
+      getCrossStatesProof H l (blocks.length + 1) key = .ok p ∧
+      crossRoot H (recs.map (fun kv => hashLeaf H kv.2)) = .ok root ∧
+      merkleProve H p root = .ok value := by
+  obtain ⟨l0, h1, h2, h3⟩ := linv_chain H g blocks
+  obtain ⟨l', p, root, ha, hp, hr, hv⟩ := served_cross_proof H hlen l0 h2 bh recs key value hmem huniq hsize
+  refine ⟨l', p, root, ?_, ?_, hr, hv⟩
+  · -- chain over blocks ++ [b] = addBlock after chain over blocks
+    have hsplit : ∀ (bs : List (Hash × List (List UInt8 × List UInt8))) (l a : Ledger),
+        addBlocks H l bs = .ok a → addBlocks H l (bs ++ [(bh, recs)]) = addBlock H a bh recs := by
+      intro bs
+      induction bs with
+      | nil => intro l a h; simp [addBlocks] at h; subst h; simp only [List.nil_append, addBlocks]; cases addBlock H l bh recs <;> rfl
+      | cons b bs ih =>
+        intro l a h
+        simp only [List.cons_append, addBlocks] at h ⊢
+        cases hb : addBlock H l b.1 b.2 with
+        | error e => simp [hb] at h
+        | ok l1 => simp only [hb] at h ⊢; exact ih l1 a h
+    unfold chain at h1 ⊢
+    cases hg : genesis H g with
+    | error e => simp [hg] at h1
+    | ok lg =>
+      simp only [hg] at h1 ⊢
+      rw [hsplit blocks lg l0 h1, ha]
+  · have : l0.hashes.length = blocks.length + 1 := by rw [h3]; simp
+    rw [← this]; exact hp
 
 /-- Satisfiable hypotheses (a 32-byte "hash" and a three-record block). -/
 example : ∃ (H : List UInt8 → List UInt8), HashLen H ∧
